@@ -61,12 +61,13 @@ def model_failure(plan, events):
     return "(AtFlush %d %s %s)" % (len(events) + k, core.coq_bool(plan["persistent"]), core.coq_bool(plan["partial"]))
 
 
-def model_expr(n, sched, fl, pre):
+def model_expr(n, sched, fl, pre, xdev=False):
     f0 = "{| target := %s; temp := None |}" % ("(Some [Chunk 999])" if pre else "None")
     chunks = "(seq 0 %d)" % n
     sc = "[" + ";".join(STEP[x] for x in sched) + "]"
-    return "show_run %d %s (gen_file %s %s %s %s %s) (gen_file false (fst (gen_file %s %s %s %s %s)) %s %s NoFailure)" % (
-        n, sc, core.coq_bool(pre), f0, chunks, sc, fl, core.coq_bool(pre), f0, chunks, sc, fl, chunks, sc)
+    xd = core.coq_bool(xdev)
+    return "show_run %d %s (gen_file %s %s %s %s %s %s) (gen_file %s false (fst (gen_file %s %s %s %s %s %s)) %s %s NoFailure)" % (
+        n, sc, xd, core.coq_bool(pre), f0, chunks, sc, fl, xd, xd, core.coq_bool(pre), f0, chunks, sc, fl, chunks, sc)
 
 
 IMPORTS = """From TxV Require Import Core.Base Core.Show Model.FsDefs Gen.SrcFs Model.Fs.
@@ -111,21 +112,25 @@ def run(chk):
         for grp in x["groups"]:
             chk.stat("events=%s" % (len(grp["events"]) if len(grp["events"]) < 4 else "4+"))
             for res in grp["results"]:
-                exprs.append(model_expr(len(grp["sched"]), grp["sched"], model_failure(res["plan"], grp["events"]), res["pre"]))
+                # the low-level writes of a copy into the output folder (shutil.move between file systems) are one more write event
+                ev_all = grp["events"] + ([grp["copy_raw"]] if grp.get("copy_raw") else [])
+                exprs.append(model_expr(len(grp["sched"]), grp["sched"], model_failure(res["plan"], ev_all), res["pre"], grp.get("xdev", False)))
                 index.append((c, x, grp, res))
     vals, errs = core.coq_eval("C31", IMPORTS, exprs)
     if errs:
         disagreements.append({"case": "coq evaluation", "model": errs[:2]})
     for (c, x, grp, res), mv in zip(index, vals):
         plan = res["plan"]
-        key = json.dumps([c["kind"], c["grammar"], grp["bufsize"], plan, res["pre"]])
+        key = json.dumps([c["kind"], c["grammar"], grp["bufsize"], grp.get("xdev", False), plan, res["pre"]])
         chk.count(key, nontrivial=res["raised"] is not None)
         chk.stat(c["kind"])
         at_close = plan["kind"] == "raw" and grp["raw_total"] > plan["k"] >= grp["raw_total"] - (grp["events"][-1] if grp["events"] and grp["sched"][-1:] != ["A"] else 0)
         chk.stat("fail@" + ("flush-at-close" if at_close else plan["kind"]))
         chk.stat("buffer=" + ("default" if grp["bufsize"] == 0 else "small"))
+        if grp.get("xdev"):
+            chk.stat("output folder on another file system than the system temp folder")
         impl_s = "%s|%s|%s|%s|%d" % ("T" if res["raised"] else "F", res["target"], "leftover" if res["leftovers"] else "clean", res["rerun_target"], len(grp["events"]))
-        brief = {"kind": c["kind"], "buffer_size": grp["bufsize"] or "default", "plan": plan, "pre": res["pre"], "grammar": c["grammar"]}
+        brief = {"kind": c["kind"], "buffer_size": grp["bufsize"] or "default", "output_folder_on_other_filesystem": grp.get("xdev", False), "plan": plan, "pre": res["pre"], "grammar": c["grammar"]}
         if mv is not None and mv != impl_s:
             disagreements.append({"case": brief, "impl": impl_s, "model": mv, "detail": {k: res[k] for k in ("raised", "size", "leftovers", "opened", "replaced")}})
         bad = None
